@@ -265,7 +265,8 @@ class Cli:
                 name, value = item.split("=", 1)
                 self.model_generator_kwargs[name] = value
 
-        self.dict_keys_regex = [re.compile(rf"^{r}$") for r in dict_keys_regex] if dict_keys_regex else ()
+        # Whole key should match: group keeps top-level alternation (`a|b`) inside the anchors, \Z does not accept trailing newline
+        self.dict_keys_regex = [re.compile(rf"^(?:{r})\Z") for r in dict_keys_regex] if dict_keys_regex else ()
         self.dict_keys_fields = dict_keys_fields or ()
         if preamble:
             preamble = preamble.strip()
